@@ -149,7 +149,7 @@ def doCommit (d : D) (mem : Nat) (l1 l2 : Completion) (script : List Attempt) : 
           | .ok =>
             ({ d3 with resolved := some (rs, true) },
              s!"ok range {Bytes.toHex d2.s.pStart} {Bytes.toHex d2.s.pEnd} regions {regionsStr rs} primary {Bytes.toHex d2.s.primary}")
-          | .err true => (d3, "err commit lost")                     -- undetermined flag set: no cleanup
+          | .err true => (d3, "err commit undetermined")            -- undetermined flag set: no cleanup
           | .err false =>
             let r := cleanupAfter d3 "err commit keyerr"
             ({ r.1 with answer := some (pipelinedAnswer res) }, r.2)
